@@ -133,6 +133,24 @@ def cases(tier, inst):
                                 a_, b_, c_ = slots
                                 yield ("optree", c, pos, ((a_, c1, b_), c2, c_))
                                 yield ("optree", c, pos, (a_, c1, (b_, c2, c_)))
+    # --- CORRELATED sub-queries: the conditions of the(...) / an(...) mention a variable of the enclosing query, the sub-query
+    #     is asked for under every binding of that variable (unique solution per binding for `the`: x is y.ref)
+    for quant in ("the", "an"):
+        for link in ("ident", "attr"):
+            if quant == "the" and link == "attr":
+                continue                # x.p == y.p has several solutions for some y: `the` would raise by design
+            for op in ("ge", "lt", "eq", "ne"):
+                for side in ("left", "right"):
+                    for extra in (None, ("cmp", "le", A(Y, "q"), L(2)), ("cmp", "ne", A(Y, "p"), L(1))):
+                        for pos in ("first", "last"):
+                            if extra is None and pos == "last":
+                                continue
+                            if quant == "the" and side == "left" and not (extra is not None and pos == "last"):
+                                # the(...) written first is evaluated before anything binds y: over all y it has several
+                                # solutions and raises, by design - a correlated the(...) needs its outer variable bound
+                                continue
+                            for attr in ("p", "q"):
+                                yield ("correlated", quant, link, op, side, extra, pos, attr)
     # --- ONE sub-query object used as an operand in several comparisons of one condition
     for c in (xonly if thorough else xonly[:2]):
         for a_ in range(3):
@@ -255,6 +273,19 @@ def queries_of(case):
             return t
         n = ("Q", "an", "setof", (X, Y), (inst_tree(tree, cmp_n),), vxy_decl)
         f = ("Q", "an", "setof", (X, Y), (inst_tree(tree, cmp_f),), vxy_decl)
+        return n, f, RICH
+    if fam == "correlated":
+        _, quant, link, op, side, extra, pos, attr = case
+        linkc = ("cmp", "eq", X, A(Y, "ref")) if link == "ident" else ("cmp", "eq", A(X, "p"), A(Y, "p"))
+        s = ("sub", ("Q", quant, "entity", X, (linkc,), ()))
+        a, b, fa, fb = A(s, attr), A(Y, attr), A(X, attr), A(Y, attr)
+        if side == "right":
+            a, b, fa, fb = b, a, fb, fa
+        cn, cf = ("cmp", op, a, b), ("and", ("cmp", op, fa, fb), linkc)
+        conds_n = (cn,) if extra is None else ((extra, cn) if pos == "last" else (cn, extra))
+        conds_f = (cf,) if extra is None else ((extra, cf) if pos == "last" else (cf, extra))
+        n = ("Q", "an", "entity", Y, conds_n, (VXY[1], VXY[0]))
+        f = ("Q", "an", "entity", Y, conds_f, (VXY[1], VXY[0]))
         return n, f, RICH
     if fam == "samesub":
         _, c, tree = case
